@@ -1,6 +1,36 @@
-"""Which family module decides which property."""
-FAMILIES = {
-    "mergesource": ["C15"],
-}
+"""Auto-discovers family modules lib/fam_<name>.py.  Each family module defines
+   PROPS    = ["C15", ...]                       properties it decides
+   MANIFEST = {"C15": {"text":..., "note":..., "technique":..., "design_ref":...}, ...}
+   ENGINE   = "one line describing the engine"
+   LEVEL    = {"C15": "model_checking"} (optional; default model_checking)
+   run(tier) -> {pid: vlib.PropResult}          one shared run for all its properties
+   replay(pid, path) -> exit code               re-run a recorded replay file
+Only the AST is read here (no import), so a broken family cannot break the others."""
+import ast
+import glob
+import os
+
+_HERE = os.path.dirname(os.path.abspath(__file__))
+FAMILIES, MANIFEST, ENGINES, LEVEL_OF = {}, {}, {}, {}
+for _p in sorted(glob.glob(os.path.join(_HERE, "fam_*.py"))):
+    _name = os.path.basename(_p)[4:-3]
+    try:
+        _tree = ast.parse(open(_p).read())
+    except SyntaxError:
+        continue
+    _vals = {}
+    for _n in _tree.body:
+        if isinstance(_n, ast.Assign) and len(_n.targets) == 1 and isinstance(_n.targets[0], ast.Name) \
+                and _n.targets[0].id in ("PROPS", "MANIFEST", "ENGINE", "LEVEL", "TECH"):
+            try:
+                _vals[_n.targets[0].id] = ast.literal_eval(_n.value)
+            except Exception:
+                pass
+    if "PROPS" not in _vals:
+        continue
+    FAMILIES[_name] = list(_vals["PROPS"])
+    ENGINES[_name] = _vals.get("ENGINE", "")
+    for _pid in _vals["PROPS"]:
+        MANIFEST[_pid] = dict(_vals.get("MANIFEST", {}).get(_pid, {}))
+        LEVEL_OF[_pid] = _vals.get("LEVEL", {}).get(_pid, "model_checking")
 FAMILY_OF = {p: f for f, ps in FAMILIES.items() for p in ps}
-LEVEL_OF = {p: "model_checking" for p in FAMILY_OF}
